@@ -404,6 +404,42 @@ macro_rules! fam_rlp {
     }};
 }
 
+/// every width that has a hybrid-array / DER codec (the table of `impl_uint_array_encoding!`): byte-array length = BITS/8,
+/// DER of 0, 5, 2^(BITS-1), MAX is the canonical encoding and decodes back (a wrong table entry for one rarely used
+/// width is invisible to the per-width grammar sweeps above)
+fn fam_width_table(ctx: &Ctx) {
+    use crypto_bigint::ArrayEncoding;
+    if !ctx.want("der_width_table") {
+        return;
+    }
+    ctx.seq("der_width_table", "all ArrayEncoding widths", |l| {
+        macro_rules! width {
+            ($($t:ident),*) => {$({
+                type T = crypto_bigint::$t;
+                let n = T::LIMBS;
+                let ins: [&[u64]; 1] = [&[n as u64]];
+                let mut cs = Case::new(l, P, "der_width_table", stringify!($t), &ins);
+                cs.l.nontrivial += 1;
+                cs.check(concat!(stringify!($t), " byte array length"), "any", &Out::Val(vec![(8 * n) as u64, (8 * n) as u64]), guard(|| Out::Val(vec![T::MAX.to_be_byte_array().len() as u64, T::MAX.to_le_byte_array().len() as u64])));
+                for v in [BigUint::zero(), BigUint::from(5u32), pow2(64 * n - 1), pow2(64 * n) - 1u32, pow2(64 * (n - 1)) | BigUint::from(0x80u32)] {
+                    let x = T::from_words(from_big(&v, n).try_into().unwrap());
+                    cs.group();
+                    let want = enc_der(&v);
+                    cs.check(concat!(stringify!($t), "::to_der"), "any", &Out::Val(want.iter().map(|&b| b as u64).collect()), guard(|| Out::Val(x.to_der().unwrap().iter().map(|&b| b as u64).collect())));
+                    cs.group();
+                    cs.check(concat!(stringify!($t), "::from_der(canonical)"), "any", &Out::v(&from_big(&v, n)), guard(|| match T::from_der(&want) {
+                        Ok(y) => Out::v(y.as_words()),
+                        Err(_) => Out::None,
+                    }));
+                    cs.group();
+                    cs.check(concat!(stringify!($t), " byte array round trip"), "any", &Out::v(&from_big(&v, n)), guard(|| Out::v(T::from_be_byte_array(x.to_be_byte_array()).as_words())));
+                }
+            })*};
+        }
+        width!(U64, U128, U192, U256, U384, U448, U512, U576, U768, U832, U896, U1024, U1536, U1792, U2048, U3072, U3584, U4096, U6144, U8192);
+    });
+}
+
 fn main() {
     let ctx = Ctx::from_args(P, "exploration");
     ctx.set_rule("E5: DER: complete product of tag in {02,03,22,82,04} x length form in {minimal definite, overlong 81/82/83, indefinite} x content length 0..=BITS/8+4 x content pattern in {00.., 00 00.., 00 80.., 00 ff.., ff.., 80.., 7f ff.., 01 00.., zeros, probe} \
@@ -421,6 +457,7 @@ fn main() {
         fam_der!(ctx, U512, 8);
         fam_der!(ctx, U1024, 16);
     }
+    fam_width_table(ctx);
     fam_rlp!(ctx, U64, 1);
     fam_rlp!(ctx, U128, 2);
     fam_rlp!(ctx, U192, 3);
